@@ -42,7 +42,8 @@ def strategy(tier):
     con = st.fixed_dictionaries({"clob": st.lists(st.integers(0, 10), max_size=3), "flags": st.booleans(),
                                  "align": st.booleans(), "caller": st.booleans(), "scratch": st.integers(0, 2)})
     cons = st.one_of(st.none(), st.lists(con, min_size=1, max_size=3))
-    return st.tuples(Lm.case_st(tier, ivs=True), cons).map(lambda t: {**t[0], "cons": t[1]})
+    noise = st.one_of(st.just([]), st.lists(st.integers(0, 200), min_size=1, max_size=3))
+    return st.tuples(Lm.case_st(tier, ivs=True), cons, noise).map(lambda t: {**t[0], "cons": t[1], "cfgnoise": t[2]})
 
 
 def in_known_class(fid, spec, failure):
@@ -175,6 +176,8 @@ def worker(rec, tier, shard_seed, n_examples):
         out.classes = c01.classes(case, Lm.Expected(case))
         if spec.get("cons"):
             out.classes.append("patches-with-constraints")
+        if spec.get("cfgnoise"):
+            out.classes.append("return-edges-perturbed")
         out.nontrivial = _nontrivial(case)
         for variant in ("base", "perm", "junk"):
             _judge(out, "C11." + ("repeat" if variant == "base" else variant), d0, digest_of(spec, variant))
